@@ -135,3 +135,58 @@ def close(a, b):
             return (a != a) and (b != b)
         return math.isclose(a, b, rel_tol=1e-9, abs_tol=1e-12)
     return a == b and type(a) is type(b)
+
+
+# --------------------------------------------------------------------------------------
+# accessor-name sanitisation, re-implemented from the documented rules (C17 / C18)
+# --------------------------------------------------------------------------------------
+import re as _re
+
+_RESERVED = None
+
+
+def reserved_names():
+    """Public attribute names of Vector and Table (what an accessor must never shadow)."""
+    global _RESERVED
+    if _RESERVED is None:
+        from serif import Vector, Table
+        out = set()
+        for cls in (Vector, Table):
+            for n in dir(cls):
+                if not n.startswith("_"):
+                    out.add(n.lower())
+        _RESERVED = out
+    return _RESERVED
+
+
+def model_sanitize(name):
+    """lower-case; runs of other characters -> one underscore; outer underscores stripped; leading digit prefixed
+    with c; names that look like generated indexed accessors or that collide with a public method get a trailing _."""
+    if not isinstance(name, str):
+        name = str(name)
+    s = _re.sub(r"[^a-z0-9_]+", "_", name.lower()).strip("_")
+    if s == "":
+        return None
+    if s[0].isdigit():
+        s = "c" + s
+    if _re.match(r"^.+__\d+$", s):
+        s += "_"
+    if s in reserved_names():
+        s += "_"
+    return s
+
+
+def model_uniquify(names):
+    """Assign unique names in order: first occurrence keeps the name, later ones get the smallest suffix >= 2 that is free."""
+    used, out = set(), []
+    for n in names:
+        if n not in used:
+            used.add(n)
+            out.append(n)
+            continue
+        i = 2
+        while f"{n}{i}" in used:
+            i += 1
+        used.add(f"{n}{i}")
+        out.append(f"{n}{i}")
+    return out
